@@ -7,7 +7,7 @@ from . import gen_common as G
 from .gen_c20 import _interleave, _place_faults
 
 SEAM_OPS = {"ld.serialize", "ld.deserialize", "ld.dump", "ld.load"}
-GROUPS = ["netdesc", "complex", "cirdesc", "roundtrip", "foreign", "inplace", "files", "netfile", "cycles"]
+GROUPS = ["netdesc", "complex", "cirdesc", "roundtrip", "foreign", "inplace", "files", "netfile", "cycles", "reent"]
 
 
 def plan(seed, overrides=None):
@@ -124,6 +124,27 @@ def _script(r, client, world, counter):
                     p = r.choice(["cy", "a"]) + "." + f2
                     add("ld.dump", {"path": p, "doc": cur})
                     cur = add("ld.load", {"path": p})
+        elif g == "reent":
+            # a dict_processor / dump function that itself serialises or dumps another document (side-car file)
+            j = r.randrange(world["nd"])
+            f2 = r.choice(cfg["formats"])
+            counter[0] += 1
+            inner = {"id": f"s{counter[0]}", "client": client, "op": r.choice(["ld.serialize", "ld.dump"]), "a": {}}
+            if inner["op"] == "ld.serialize":
+                inner["a"] = {"doc": P(f"doc{j}t"), "fmt": f2}
+            else:
+                inner["a"] = {"path": "side." + f2, "doc": P(f"doc{j}t")}
+            if r.random() < 0.5:
+                t = add("ld.serialize", {"doc": P(f"doc{i}"), "fmt": fmt})
+                out[-1]["nested"] = [{"at": 0, "when": r.choice(["before", "after"]), "steps": [inner]}]
+                out[-1]["wrap"] = True
+                add("ld.deserialize", {"text": t, "fmt": fmt, "expect": P(f"doc{i}")})
+            else:
+                p = "re." + fmt
+                add("ld.dump", {"path": p, "doc": P(f"doc{i}")})
+                out[-1]["nested"] = [{"at": 0, "when": r.choice(["before", "after"]), "steps": [inner]}]
+                out[-1]["wrap"] = True
+                add("ld.load", {"path": p})
         elif g == "foreign":
             add("ld.deserialize", {"text": {"foreign": P(f"ndoc{i}")}, "fmt": fmt, "expect": P(f"ndoc{i}"), "ascii": r.random() < 0.5})
         elif g == "inplace":
